@@ -15,6 +15,8 @@ TEXT = {
     "identity": "one peer-table entry per connection: fresh unique key for anonymous / empty identities, length rule, overwrite on reconnect (C04 R04.3/R04.4)",
     "wakeup": "no lost wake-up and queue state integrity in the fair queue (C06 R06.1/R06.2/R06.4/R06.5)",
     "accept": "accept loops hand every connection to its own task and end only on stop (C20 R20.1)",
+    "pubreader": "PUB's per-subscriber reader task forgets its peer when, and only when, that subscriber's stream ended or failed (C16 R16.3)",
+    "trysend": "the non-blocking write used by the publishers: start_send only after Ready(Ok), Pending -> BufferFull, only the error kinds the publish loops continue after (C12 R12.2)",
 }
 
 
@@ -42,6 +44,14 @@ def _run_group(ctx, f, group, prop):
         for b in tasks:
             acc.check_accept_loop(f, sub, "R20.1", b, "R20.1")
         keep = lambda o: o.rule == "R20.1"
+    elif group == "pubreader":
+        from . import c16
+        c16.check_pub_reader(f, sub)
+        keep = lambda o: "PUB-reader" in o.key
+    elif group == "trysend":
+        from . import c12
+        c12.check_try_send(f, sub)
+        keep = lambda o: o.rule == "R12.2"
     else:
         raise KeyError(group)
     return [o for o in sub.obls if keep(o)]
@@ -54,4 +64,4 @@ def import_groups(ctx, f, rep, prop, groups):
         for o in _run_group(ctx, f, g, prop):
             n += 1
             (rep.ok if o.ok else rep.bad)(rule, "%s|%s|%s" % (rule, g, o.key), o.what, o.loc, o.detail)
-        rep.floor(rule, "foundation group `%s` re-evaluated" % g, n, 3)
+        rep.floor(rule, "foundation group `%s` re-evaluated" % g, n, 2)
